@@ -704,7 +704,8 @@ pub fn run_model(m: &mut ModelProc, ops: &[String]) -> Vec<StepRec> {
 // generation
 // ------------------------------------------------------------------------------------------
 
-pub struct GenCfg { pub universe: i64, pub n_ops: usize, pub malformed: u64 }
+pub struct GenCfg { pub universe: i64, pub n_ops: usize, pub malformed: u64, /// percentage of histories that start with a unique value changing hands across a flush, then a crash
+    pub handover: u64 }
 
 fn gen_val(r: &mut Rng, f: &FieldSpec, g: &GenCfg) -> Val {
     let u = g.universe;
@@ -780,6 +781,77 @@ fn gen_ix_op(r: &mut Rng) -> String {
     }
 }
 
+/// A unique value changes hands between the last flush and a power loss (ids 1, 2 are flushed; the
+/// release is a remove or an update of document 1; the taker is a new document or the flushed document 2),
+/// then crash recovery, a contender for the value, an `Eq` probe and a second reopen.
+fn gen_handover(r: &mut Rng, g: &GenCfg, ops: &mut Vec<String>) -> u64 {
+    let line = |r: &mut Rng, head: &str, fixed: &[(usize, Val)]| -> String {
+        let fvs: Vec<(usize, Val)> = FIELDS.iter().map(|f| (f.num, fixed.iter().find(|x| x.0 == f.num).map(|x| x.1.clone()).unwrap_or_else(|| match f.num { 1..=5 => Val::Null, _ => gen_val(r, f, g) }))).collect();
+        format!("{head} {}", join(fvs.iter().map(|(f, v)| format!("{f}={}", v.show())), " "))
+    };
+    // the values document 1 holds in its unique places: u, e, ut, (a, b)
+    let held = vec![(1, Val::Int(20)), (2, Val::Int(7)), (3, Val::Arr(vec![20, 21])), (4, Val::Int(7)), (5, Val::Int(7))];
+    ops.push(line(r, "add", &held));
+    let e2 = if r.chance(1, 2) { Val::Int(8) } else { Val::Null };
+    ops.push(line(r, "add", &[(1, Val::Int(21)), (2, e2), (3, Val::Arr(vec![22])), (4, Val::Int(7)), (5, Val::Int(8))]));
+    let mut next = 3u64;
+    if r.chance(1, 3) { ops.push(line(r, "add", &[(1, Val::Int(25)), (2, Val::Null), (3, Val::Arr(vec![])), (4, Val::Int(8)), (5, Val::Null)])); next += 1; }
+    ops.push(if r.chance(2, 3) { "flush".into() } else { "reopen".into() });
+    // which unique places are released
+    let places: Vec<usize> = [1usize, 2, 3, 4].iter().copied().filter(|_| r.chance(1, 2)).collect();
+    let places = if places.is_empty() { vec![*r.pick(&[1usize, 2, 3, 4])] } else { places };
+    let by_remove = r.chance(1, 3);
+    if by_remove { ops.push("rm 1".into()); } else {
+        let mut fvs: Vec<String> = vec![];
+        for p in &places {
+            match p { 1 => fvs.push("1=i23".into()), 2 => fvs.push(if r.chance(1, 2) { "2=~".into() } else { "2=i6".to_string() }), 3 => fvs.push(if r.chance(1, 2) { "3=a21".into() } else { "3=a-".to_string() }), _ => fvs.push(if r.chance(1, 2) { "5=i9".into() } else { "5=~".to_string() }) }
+        }
+        ops.push(format!("upd 1 {}", fvs.join(" ")));
+    }
+    // the taker gets the released values (all of them after a remove)
+    let taken: Vec<(usize, Val)> = {
+        let all = by_remove;
+        let mut t = vec![];
+        t.push((1, if all || places.contains(&1) { Val::Int(20) } else { Val::Int(24) }));
+        t.push((2, if all || places.contains(&2) { Val::Int(7) } else { Val::Null }));
+        t.push((3, if all || places.contains(&3) { Val::Arr(vec![20]) } else { Val::Arr(vec![]) }));
+        if all || places.contains(&4) { t.push((4, Val::Int(7))); t.push((5, Val::Int(7))); } else { t.push((4, Val::Int(9))); t.push((5, Val::Int(9))); }
+        t
+    };
+    if r.chance(2, 3) { ops.push(line(r, "add", &taken)); next += 1; } else {
+        // among flushed documents: document 2 takes them by an update (both sides only have intents)
+        ops.push(format!("upd 2 {}", join(taken.iter().map(|(f, v)| format!("{f}={}", v.show())), " ")));
+    }
+    if r.chance(1, 3) { ops.push(line(r, "add", &[(1, Val::Int(26)), (2, Val::Null), (3, Val::Arr(vec![])), (4, Val::Int(8)), (5, Val::Int(1))])); next += 1; }
+    if r.chance(1, 4) { ops.push("upd 2 8=t1".into()); }
+    ops.push("crash".into());
+    ops.push("check".into());
+    ops.push(line(r, "add", &taken)); // a contender for the handed-over values
+    next += 1;
+    ops.push(format!("q {} eq:20", bt_rank("u")));
+    ops.push(format!("q {} eq:7", bt_rank("e")));
+    ops.push(format!("q {} eq:20", bt_rank("ut")));
+    ops.push(if r.chance(1, 4) { "crash".into() } else { "reopen".into() });
+    ops.push("check".into());
+    next
+}
+
+/// Index operations for the open callback after a power loss. Creating an index that can *refuse* a
+/// document (unique B-tree, HNSW with its dimension) is left out on purpose: the callback runs before
+/// recovery, so the backfill sees only the documents of the last flush; a document recovery finds later and
+/// the new index refuses is skipped with a log line and stays live but unindexed (candidate finding
+/// F-C02-2, notes/C02.md) — generating it would alarm on the unchanged tree.
+fn gen_ix_op_after_crash(r: &mut Rng) -> String {
+    match r.below(10) {
+        0..=3 => { let (name, fs) = *r.pick(&[BT[3], BT[4], BT[5], BT[6]]); format!("mkbt {} {}", bt_rank(name), csv(fs)) }
+        4 | 5 => { let (name, _) = BT[r.usize(BT.len())]; format!("rmbt {}", bt_rank(name)) }
+        6 => format!("mktx {}", csv(TX[r.usize(2)])),
+        7 => format!("rmtx {}", csv(TX[r.usize(2)])),
+        8 => format!("rmhn {HN_FIELD}"),
+        _ => "mkbt 20 99".into(),
+    }
+}
+
 pub fn gen_case(r: &mut Rng, g: &GenCfg) -> Vec<String> {
     let mut ops = vec![schema_line()];
     // initial registry: most indexes present, sometimes a sparse one
@@ -792,9 +864,10 @@ pub fn gen_case(r: &mut Rng, g: &GenCfg) -> Vec<String> {
     for t in TX.iter() { if r.chance(if dense { 3 } else { 1 }, 4) { ops.push(format!("mktx {}", csv(t))); } }
     if r.chance(if dense { 4 } else { 1 }, 5) { ops.push(format!("mkhn {HN_FIELD} {HN_DIM}")); }
     let mut next_id = 1u64;
+    if r.below(100) < g.handover { next_id = gen_handover(r, g, &mut ops); }
     // ids that may be live (an add was generated for them and no rm since): updates and removals aim
     // at them most of the time; a rejected add still consumes its id, an invalid one does not
-    let mut maybe: Vec<u64> = vec![];
+    let mut maybe: Vec<u64> = (1..next_id).collect();
     for _ in 0..g.n_ops {
         let id = if !maybe.is_empty() && r.chance(4, 5) { *r.pick(&maybe) } else { 1 + r.below(next_id.max(1)) };
         match r.below(100) {
@@ -828,10 +901,12 @@ pub fn gen_case(r: &mut Rng, g: &GenCfg) -> Vec<String> {
             }
             71..=79 => { ops.push(format!("rm {id}")); maybe.retain(|x| *x != id); }
             80..=82 => ops.push(format!("rm {}", 1 + r.below(next_id + 1))),
-            83..=85 => ops.push("reopen".into()),
+            83 | 84 => ops.push("reopen".into()),
+            85 => { ops.push("crash".into()); ops.push("check".into()); }
             86 | 87 => ops.push("flush".into()),
             88..=94 => ops.push(gen_q(r, g)),
-            _ => { ops.push("reopen".into()); for _ in 0..1 + r.usize(2) { ops.push(gen_ix_op(r)); } }
+            // index operations run in the open callback: of a clean reopen, or (one in five) of the open after a power loss
+            _ => { let crash = r.chance(1, 5); ops.push(if crash { "crash" } else { "reopen" }.into()); for _ in 0..1 + r.usize(2) { ops.push(if crash { gen_ix_op_after_crash(r) } else { gen_ix_op(r) }); } if crash { ops.push("check".into()); } }
         }
     }
     ops
